@@ -74,6 +74,8 @@ R = {
     "key_layout": tiered(keys.key_layout),
     "tt_order_defaults": tiered(sampler.tt_order_defaults),
     "ring_marker_text": tiered(ring.ring_marker_text),
+    "tab_node_token": tiered(tables.tab_node_token),
+    "prov_kept_hydrogens": tiered(extra.prov_kept_hydrogens),
     "tt_layer_format": tiered(extra.tt_layer_format),
     "prov_sampler_setup": tiered(sampler.prov_sampler_setup),
     "da_self_attrs_sampler": named("da_self_attrs_sampler", da.da_self_attrs, [("sample", "MoleculeSampler")]),
@@ -187,7 +189,7 @@ prop("C03", ["det_loop_state_resolver", "tt_compatible", "prov_matcher_shape", "
      "'exactly that many' bonds depends on first-match search order over runtime lists",
      floors={"DET.loop-state": 4, "PROV.option-forwarding": 8, "ORD.complete-loops": 19, "SENT.order-zero": 20, "TT.compatible": 1, "PROV.matcher-shape": 4, "OWN.sole-bond-site": 1, "PROV.matcher-args": 1,
              "PROV.legacy-forwarded": 2, "TRIP.bond-loop": 3, "PAIR.resolver-consume": 3, "PROV.bond-edge": 2, "PROV.bond-order": 1})
-prop("C04", ["det_loop_state_reader", "det_shared_state_reader", "ring_marker_text", "exc_raise_inventory", "tab_reader_symbols", "da_reader", "da_globals_reader", "sib_ring_handlers", "prov_node_attributes", "sent_order_zero", "prov_after_branch_order"],
+prop("C04", ["det_loop_state_reader", "det_shared_state_reader", "ring_marker_text", "exc_raise_inventory", "tab_reader_symbols", "da_reader", "da_globals_reader", "sib_ring_handlers", "prov_node_attributes", "sent_order_zero", "prov_after_branch_order", "tab_node_token"],
      "a sliver: the reader's symbol table equals the documented one and its guard admits every symbol; no possibly-unbound local on a feasible path of the "
      "reader functions; the %nn and digit ring handlers perform the same open/close protocol; a ring bond joins opening and closing node with the order "
      "written at the opening marker and the pending ring order is reset after every marker; node attributes come from the node's own text",
@@ -216,12 +218,12 @@ prop("C08", ["ring_marker_text", "tt_layer_format", "da_writer", "emit_format_bo
      "equality of the re-read fragment graphs (pysmiles writes and parses the atoms); coarse fragments are written with the fragment's name in place of "
      "each node's own name (seen while reading, outside the rules)",
      floors={"TOK.ring-marker-text": 1, "TT.layer-format": 1, "DA.writer": 6, "EMIT.write_graph": 2, "EMIT.format_bonding": 4, "TAB.fragment-symbols": 2, "SENT.pending-order": 1, "TOK.T5-descriptor": 6})
-prop("C09", ["ord_resolve_phases", "ord_sample_finalise", "ord_hydrogens", "tab_copy_attrs", "prov_h_inherit", "sent_numeric_attrs", "ord_complete_loops", "own_templates_sampler", "prov_hcount_bookkeeping"],
+prop("C09", ["ord_resolve_phases", "ord_sample_finalise", "ord_hydrogens", "tab_copy_attrs", "prov_h_inherit", "sent_numeric_attrs", "ord_complete_loops", "own_templates_sampler", "prov_hcount_bookkeeping", "prov_kept_hydrogens"],
      "every all-atom path of resolver and sampler passes the hydrogen rebuild after the last connectivity change and before renumbering; inside the rebuild: "
      "reset hcount to 0 < fill_valence(respect_hcount=False) < add_explicit_hydrogens, aromatic correction < fill; keep_bonding unused; hydrogens inherit attributes",
      "the numbers themselves (valence lists, charges, aromatic correction) are pysmiles'",
      floors={"SENT.numeric-attribute": 30, "ORD.resolve-phases": 10, "ORD.sample-finalise": 5, "ORD.hydrogens": 9, "TAB.copy_attrs": 3, "PROV.h-inherit": 3})
-prop("C10", ["ord_hydrogens", "prov_squash", "ord_resolve_phases", "prov_bond_edge", "tt_compatible"],
+prop("C10", ["ord_hydrogens", "prov_squash", "ord_resolve_phases", "prov_bond_edge", "tt_compatible", "prov_hcount_bookkeeping", "prov_matcher_args"],
      "contraction exactly for '!' pairs (truth table over kinds); merged nodes are the bond's endpoints followed through earlier merges, the removed node is "
      "recorded; self_loops=False; result assigned back; kept node's fragid/mapping extended on every path; connect < squash < hydrogens; the pair is recorded on the bond",
      "equivalence with the disjoint description; aromaticity and hydrogen refill on the merged graph",
@@ -245,12 +247,12 @@ prop("C13", ["det_loop_state_tok", "det_shared_state_reader", "tok_rules", "tab_
      "anything about the cleaned text being valid SMILES; `( symbol descriptor )` leaves an empty branch",
      floors={"DET.loop-state": 2, "DET.shared-state": 8, "ORD.parse-pipeline": 3, "TAB.fragment-symbols": 2, "TOK.T0-conservation": 3, "TOK.T1-symbol": 1, "TOK.T2-ring": 2, "TOK.T3-atom": 6, "TOK.T4-branch": 2, "TOK.T5-descriptor": 8,
              "TOK.T6-slash": 1, "TOK.invariant": 1, "SENT.pending-order": 1})
-prop("C14", ["det_shared_state_reader", "tab_dialects", "ord_parse_pipeline", "prov_node_attributes", "prov_copy_complete", "exc_annotations", "prov_h_inherit", "sent_numeric_attrs", "ord_complete_loops", "sent_annotation_value", "prov_fragment_attrs"],
+prop("C14", ["det_shared_state_reader", "tab_dialects", "ord_parse_pipeline", "prov_node_attributes", "prov_copy_complete", "exc_annotations", "prov_h_inherit", "sent_numeric_attrs", "ord_complete_loops", "sent_annotation_value", "prov_fragment_attrs", "tab_node_token"],
      "both dialect signatures, defaults, types, rename maps equal the documented table; bind < cast < defaults, cast < rename, cast keyed by name over all "
      "bound arguments; base-graph node attributes come from the node's own text (also for multiplied copies and recipes); fragment copies keep all attributes",
      "numeric spellings (python's float); `q=` at the coarse-fragment level is parsed by the atomistic dialect (seen while reading, outside the rules)",
      floors={"DET.shared-state": 8, "SENT.annotation-value": 2, "PROV.fragment-attrs": 2, "SENT.numeric-attribute": 30, "SENT.attribute-value": 1, "TAB.dialects": 3, "ORD.parse-pipeline": 6, "PROV.node-attributes": 4, "PROV.copy-complete": 5})
-prop("C15", ["prov_fragment_attrs", "tt_relative_dispatch", "prov_slash_marks", "ord_resolve_stereo", "prov_relative_attr", "tok_rules", "prov_copy_complete"],
+prop("C15", ["prov_fragment_attrs", "tt_relative_dispatch", "prov_slash_marks", "ord_resolve_stereo", "prov_relative_attr", "tok_rules", "prov_copy_complete", "prov_kept_hydrogens"],
      "the cis/trans annotation runs after the last relabelling and after hydrogens exist, on the relabelled graph; node-referencing attributes are "
      "remapped through the relabelling map and shifted on merge; slash marks are recorded for the atoms around them; chirality annotations are copied",
      "the cis/trans relation itself (pysmiles' _annotate_ez_isomers)",
@@ -297,12 +299,12 @@ _LATER = {
     "C07": "two-digit markers are written after the single-digit ones and the bare digit form only below 10; a new marker is chosen against the markers in use and released on closing; all traversal helpers start from the start node; a local edge-needs-symbol predicate equals the OpenSMILES rule",
     "C08": "which layer is written as atomistic SMILES (abstract execution for three layers); fragment symbol table equals the documented one incl. ':'; a %nn marker may end a fragment text",
     "C09": "aromatic correction before the reset of the hydrogen counts; the sampler adds hydrogens on every all-atom path and on no coarse path",
-    "C10": "nothing but the membership lists of the two atoms is added up; the merge record is a fresh local per call",
+    "C10": "nothing but the membership lists of the two atoms is added up; the merge record is a fresh local per call; the provisional '!' bond is found with the resolver's own matching convention and lowers the hydrogen count of both atoms once per bond (the aromaticity correction of a shared ring atom reads it)",
     "C11": "no truth test on a bond order",
     "C12": "the three constructors and __init__ agree on the documented defaults; the fragment libraries are read by key only; names are set for every coarse node's atoms",
     "C13": "fragment symbol table equals the documented one; parse pipeline of the annotation (bind < cast < defaults); no memoised parser; the tokenizer's loop-carried state is the confirmed one",
-    "C14": "annotation values are never tested for truth; annotations are applied after the defaults on every path of the fragment readers; key-less values reach bind as positional arguments",
-    "C15": "slash marks reach the fragment reader, are written on every multi-atom path and read back under the same name; both marks of a slash are stored unconditionally; the remapping dispatch for tuple / list / scalar values (truth table); entries are read from the relabelled graph and written back",
+    "C14": "the node token pattern takes everything up to the closing bracket as one token (regex language tested on sample tokens with free-form values); annotation values are never tested for truth; annotations are applied after the defaults on every path of the fragment readers; key-less values reach bind as positional arguments",
+    "C15": "hydrogens written as bracket atoms stay nodes whatever their annotation values are; slash marks reach the fragment reader, are written on every multi-atom path and read back under the same name; both marks of a slash are stored unconditionally; the remapping dispatch for tuple / list / scalar values (truth table); entries are read from the relabelled graph and written back",
     "C16": "start fragment merged once into the grown graph (named or random); instance attributes assigned on every path of __init__; no early exit past the finalisation",
     "C17": "order-suffix defaulting of all three tables (abstract execution on representative descriptors); masses computed for every fragment exactly when no table is given; mass sum starts at 0; no set iteration in the helpers of the growth step; mutable defaults are not written",
     "C18": "positions are (x, y, z) of the atom's conformer position in both directions; the memo of weight totals must be keyed by the bead; conversion loops visit every atom and bond",
